@@ -76,6 +76,14 @@ impl MerkleProof {
             return Err(verification_error!("proof created for a different leaf").into());
         }
 
+        if self.index >= self.total {
+            bail_verification!(
+                "leaf index ({}) out of bounds for a tree with {} leaves",
+                self.index,
+                self.total
+            );
+        }
+
         let computed_root = subtree_root_from_aunts(self.index, self.total, leaf, &self.aunts)?;
 
         if computed_root != root {
